@@ -6,6 +6,7 @@ import (
 	"strings"
 
 	kruiseappsv1alpha1 "github.com/openkruise/kruise-api/apps/v1alpha1"
+	rolloutsv1alpha1 "github.com/openkruise/rollouts/api/v1alpha1"
 	rolloutsv1beta1 "github.com/openkruise/rollouts/api/v1beta1"
 	"github.com/openkruise/rollouts/pkg/util"
 	apps "k8s.io/api/apps/v1"
@@ -306,6 +307,19 @@ func AllUserActions() []*UserAction {
 				return w.Raw.Delete(context.TODO(), o.(client.Object))
 			},
 			After: func(mon MonState) { mon["req.exit"] = "workload-deleted" }},
+		{Name: "deleteTR", OneShot: true, // the user deletes the TrafficRouting custom resource
+			Guard: func(w *World, sc *Scenario, mon MonState) bool {
+				tr := &rolloutsv1alpha1.TrafficRouting{}
+				return sc.TRCR && mon["req.release"] != "" && w.Get(tr, sc.ns(), TRName) && tr.DeletionTimestamp == nil
+			},
+			Do: func(w *World, sc *Scenario) error {
+				tr := &rolloutsv1alpha1.TrafficRouting{}
+				if !w.Get(tr, sc.ns(), TRName) {
+					return fmt.Errorf("TrafficRouting gone")
+				}
+				return w.Raw.Delete(context.TODO(), tr)
+			},
+			After: func(mon MonState) { mon["req.exit"] = "trafficrouting-deleted" }},
 		{Name: "deleteCanary", OneShot: true, NoCost: true, // someone deletes the canary Deployment of a canary-style release (it turns Terminating: it carries the BatchRelease finalizer)
 			Guard: func(w *World, sc *Scenario, mon MonState) bool {
 				return inProgress(getRollout(w, sc)) && liveCanaryDeployment(w, sc) != nil
